@@ -2,6 +2,7 @@ package main
 
 import (
 	"fmt"
+	"go/ast"
 	"go/types"
 	"strings"
 
@@ -122,7 +123,7 @@ func pairRule(r *Report, p *Prog, rule string, fn *ssa.Function, l *loop, min in
 			}
 			stop := map[*ssa.BasicBlock]bool{l.header: true}
 			for _, ob := range fn.Blocks {
-				if !l.body[ob] {
+				if !l.body[ob] && !exitAborts(ob, l) {
 					stop[ob] = true
 				}
 			}
@@ -173,7 +174,7 @@ func graphWritersRule(r *Report, p *Prog, e *Effect, rule string, roots []*ssa.F
 func checkC06(r *Report) {
 	p := loadResolve("", true)
 	pathTrusted(r)
-	r.Explain = "Path rules on the SSA control-flow graph of the npm resolver. C06.a LOOP-ACCOUNT: in the loop that asks the client for matching versions of each requirement, every path through one iteration ends in (*Graph).AddEdge, (*Graph).AddError or a return, so each non-dev, non-peer requirement becomes an edge, a node error, or aborts the resolution. C06.b PAIR: each (*Graph).AddNode in that loop is followed on every continuing path by an AddEdge whose target is the id just created; C06.c GRAPH-WRITERS: nothing reachable from Resolve writes Graph.Nodes/Edges except Graph's own append-only Add* methods; with the root as base case every node is reachable from the root by induction on insertion order. Not decided: that the edge target satisfies the requirement, version choice, hoisting and shadowing."
+	r.Explain = "Path rules on the SSA control-flow graph of the npm resolver. C06.a LOOP-ACCOUNT: in the loop that asks the client for matching versions of each requirement, every path through one iteration ends in (*Graph).AddEdge, (*Graph).AddError or a return, so each non-dev, non-peer requirement becomes an edge, a node error, or aborts the resolution. C06.b PAIR: each (*Graph).AddNode in that loop is followed on every continuing path by an AddEdge whose target is the id just created; C06.c GRAPH-WRITERS: nothing reachable from Resolve writes Graph.Nodes/Edges except Graph's own append-only Add* methods; with the root as base case every node is reachable from the root by induction on insertion order. C06.d KNOWN-EMPTY-KEY (deny-list): no slot/alias table of the npm resolver is looked up with a variable on a branch where that variable is known to be the empty string (such a lookup can never hit, so a reservation that protects Node's walk-up lookup would be silently ignored). Not decided: that the edge target satisfies the requirement, version choice, and the hoisting/shadowing logic as a whole."
 	fn := p.lookupFn("(*resolve/npm.resolver).Resolve")
 	if fn == nil {
 		r.bad("C06.a/LOOP-ACCOUNT", "npm Resolve", "", "function (*resolve/npm.resolver).Resolve not found")
@@ -189,13 +190,14 @@ func checkC06(r *Report) {
 	pairRule(r, p, "C06.b/PAIR", fn, l, 2)
 	e := runEffect(p)
 	graphWritersRule(r, p, e, "C06.c/GRAPH-WRITERS", []*ssa.Function{fn})
+	knownEmptyKeyRule(r, p, "C06.d/KNOWN-EMPTY-KEY", "resolve/npm")
 	r.Stats["loop_blocks"] = len(l.body)
 }
 
 func checkC07(r *Report) {
 	p := loadResolve("", true)
 	pathTrusted(r)
-	r.Explain = "Path rules on the SSA control-flow graph of the Maven resolver's traversal. C07.a LOOP-ACCOUNT on the loop over a version's imports that calls findMatch: every path of an iteration ends in AddEdge, AddError or return, except two documented skips attached to the true edge of their guard: the artifact is excluded on this path (isExcluded) and scope == \"provided\" in multi-registry mode. C07.b PAIR: the AddNode in the loop is followed by an AddEdge to that node. C07.c GRAPH-WRITERS as for npm. C07.d RETRY-BOUND: the retry loop on incompatible requirements compares a counter that is incremented once per iteration with the constant maxRetries. Not decided: nearest-wins, range satisfaction, management override."
+	r.Explain = "Path rules on the SSA control-flow graph of the Maven resolver's traversal. C07.a LOOP-ACCOUNT on the loop over a version's imports that calls findMatch: every path of an iteration ends in AddEdge, AddError or return, except two documented skips attached to the true edge of their guard: the artifact is excluded on this path (isExcluded) and scope == \"provided\" in multi-registry mode. C07.b PAIR: the AddNode in the loop is followed by an AddEdge to that node. C07.c GRAPH-WRITERS as for npm. C07.d RETRY-BOUND: the retry loop on incompatible requirements compares a counter that is incremented once per iteration with the constant maxRetries. C07.e NODE-REGISTERED: every table that records the id of a node added in the loop on some path records it on every continuing path, so the de-duplication tables that enforce one version per artifact stay in step with the graph. Not decided: nearest-wins, range satisfaction, management override."
 	fn := p.lookupFn("(*resolve/maven.resolver).resolve")
 	if fn == nil {
 		r.bad("C07.a/LOOP-ACCOUNT", "maven resolve", "", "function (*resolve/maven.resolver).resolve not found")
@@ -240,4 +242,104 @@ func checkC07(r *Report) {
 	}
 	graphWritersRule(r, p, e, "C07.c/GRAPH-WRITERS", []*ssa.Function{root})
 	loopBoundRule(r, p, "C07.d/RETRY-BOUND", root, "maxRetries")
+	nodeRegisteredRule(r, p, "C07.e/NODE-REGISTERED", fn, l)
+}
+
+// nodeRegisteredRule: every map that records the id returned by an AddNode of
+// the loop on some path records it on every continuing path (the resolver's
+// de-duplication tables stay in step with the graph).
+func nodeRegisteredRule(r *Report, p *Prog, rule string, fn *ssa.Function, l *loop) {
+	n := 0
+	for _, b := range fn.Blocks {
+		if !l.body[b] {
+			continue
+		}
+		for i, in := range b.Instrs {
+			if staticCalleeName(in) != "(*resolve.Graph).AddNode" {
+				continue
+			}
+			node := in.(ssa.Value)
+			maps := map[ssa.Value]string{}
+			for _, ref := range *node.Referrers() {
+				if mu, ok := ref.(*ssa.MapUpdate); ok && mu.Value == node {
+					maps[mu.Map] = mu.Map.Name()
+					if al, ok := mu.Map.(*ssa.UnOp); ok {
+						if a, ok := al.X.(*ssa.Alloc); ok {
+							maps[mu.Map] = a.Comment
+						}
+					}
+				}
+			}
+			stop := map[*ssa.BasicBlock]bool{l.header: true}
+			for _, ob := range fn.Blocks {
+				if !l.body[ob] && !exitAborts(ob, l) {
+					stop[ob] = true
+				}
+			}
+			for m, name := range maps {
+				n++
+				key := fmt.Sprintf("%s: node id recorded in map %s", fnKey(fn), short(m.Type().String()))
+				_ = name
+				okUpd := func(x ssa.Instruction) bool {
+					mu, ok := x.(*ssa.MapUpdate)
+					return ok && mu.Value == node && sameMap(mu.Map, m)
+				}
+				if path := mustPassFrom(b, i, stop, okUpd, true); path != nil {
+					pp := pathPositions(p, path)
+					r.bad(rule, key, p.pos(in.Pos()), "a path adds the node and reaches the next iteration without recording its id in this table, which other paths do record: later requirements on the same artifact no longer find the node and a second version can be added", pp...)
+				} else {
+					r.ok(rule, key, p.pos(in.Pos()), "recorded on every continuing path after AddNode")
+				}
+			}
+		}
+	}
+	r.floor(rule, "tables recording the id of a node added in the loop", n, 2)
+}
+
+// sameMap: two loads of the same local map variable, or the same SSA value.
+func sameMap(a, b ssa.Value) bool {
+	if a == b {
+		return true
+	}
+	ua, ok1 := a.(*ssa.UnOp)
+	ub, ok2 := b.(*ssa.UnOp)
+	return ok1 && ok2 && ua.X == ub.X
+}
+
+// knownEmptyKeyRule (deny-list): a map is indexed (or a function called) with a
+// string variable that the enclosing branch established to be empty.
+func knownEmptyKeyRule(r *Report, p *Prog, rule string, pkgRel string) {
+	pk := p.pkg(pkgRel)
+	n, bad := 0, 0
+	for _, f := range pk.Syntax {
+		pm := buildParents(f)
+		ast.Inspect(f, func(nd ast.Node) bool {
+			ix, ok := nd.(*ast.IndexExpr)
+			if !ok {
+				return true
+			}
+			if tv, ok := pk.TypesInfo.Types[ix.X]; !ok || tv.Type == nil {
+				return true
+			} else if _, isMap := tv.Type.Underlying().(*types.Map); !isMap {
+				return true
+			}
+			id, ok := ast.Unparen(ix.Index).(*ast.Ident)
+			if !ok {
+				return true
+			}
+			n++
+			want := id.Name + ` == ""`
+			for _, g := range guardFactsAt(ix, pm) {
+				if g.text == want {
+					bad++
+					r.bad(rule, p.enclosingFuncName(ix.Pos())+": "+types.ExprString(ix), p.pos(ix.Pos()), "the map is indexed with "+id.Name+" on a branch where "+id.Name+` == "" holds: the lookup can never find a named entry (a different key was meant)`)
+				}
+			}
+			return true
+		})
+	}
+	if bad == 0 {
+		r.ok(rule, "package "+pkgRel, "", fmt.Sprintf("none of the %d map lookups keyed by a variable sits on a branch where that variable is known to be empty", n))
+	}
+	r.floor(rule, "map lookups keyed by a variable in "+pkgRel, n, 5)
 }
